@@ -15,14 +15,15 @@
 using namespace sim; using namespace sapp;
 
 enum { ST_RUNS, ST_SETS, ST_CYCLES, ST_LOADS, F_CRASH, F_LOST, F_TORN, F_FLIP, F_HEADER, F_APPNAME, F_GARBAGE, F_UNKNOWN_PORT, F_PERMUTED, F_DEP_LINE_DELETED,
-       P_UNTOUCHED, P_LINES3, P_NEG_VALUE, P_FLOAT_LINE, P_TOGGLE_LINE, P_STRING_SPECIAL, P_ARRAY_LINE, P_PRESET_NONZERO, P_SUBTREE_LINE, P_PTR_SUBTREE_LINE, P_PRUNED, P_OPTION_LINE, P_PERM_ALL, P_PERM_SAMPLED, P_DEP_ORDER_MATTERED, P_TORN_ACCEPTED, ST_N };
+       P_UNTOUCHED, P_LINES3, P_NEG_VALUE, P_FLOAT_LINE, P_TOGGLE_LINE, P_STRING_SPECIAL, P_ARRAY_LINE, P_PRESET_NONZERO, P_SUBTREE_LINE, P_PTR_SUBTREE_LINE, P_PRUNED, P_OPTION_LINE, P_PERM_ALL, P_PERM_SAMPLED, P_DEP_ORDER_MATTERED, P_TORN_ACCEPTED, P_NAME_WITH_BLANK, ST_N };
 static const char *STAT_NAMES[ST_N] = { "runs", "sets", "save_crash_restart_load_cycles", "evaluations", "fault.crash_restart", "fault.lost_write", "fault.torn_write", "fault.flipped_byte", "fault.foreign_header", "fault.other_application", "fault.unparsable_line", "fault.unknown_port_line", "fault.lines_permuted", "fault.depended_on_line_deleted",
        "probe.untouched_application_saved", "probe.savefile_with_3_or_more_lines", "probe.negative_value_saved", "probe.float_saved", "probe.toggle_saved", "probe.string_with_special_characters_saved", "probe.array_saved", "probe.non_default_preset_saved",
-       "probe.subtree_parameter_saved", "probe.pointer_subtree_parameter_saved", "probe.disabled_subtree_pruned", "probe.option_saved", "probe.all_permutations_enumerated", "probe.permutations_sampled", "probe.file_with_dependency_between_lines", "probe.torn_file_accepted_partially" };
+       "probe.subtree_parameter_saved", "probe.pointer_subtree_parameter_saved", "probe.disabled_subtree_pruned", "probe.option_saved", "probe.all_permutations_enumerated", "probe.permutations_sampled", "probe.file_with_dependency_between_lines", "probe.torn_file_accepted_partially", "probe.application_name_with_a_blank" };
 
 enum { OP_SET = 0, OP_CYCLE, OP_FILL };
 enum { FL_NONE = 0, FL_LOST, FL_TORN, FL_FLIP, FL_HEADER, FL_APP, FL_GARBAGE, FL_UNKNOWN, FL_N };
 
+static std::string g_appname;   // the name the application saves and loads under in this run (a knob: the plain name, or one with a blank in it)
 struct Inst { const AppDesc *d; void *obj; Inst(const AppDesc &dd) : d(&dd), obj(dd.make()) {} ~Inst() { d->destroy(obj); } Inst(const Inst &) = delete; };
 struct Loc : rtosc::RtData { char buf[512]; Loc() { memset(buf, 0, sizeof buf); loc = buf; loc_size = sizeof buf; } };
 
@@ -60,7 +61,7 @@ struct SaveWorld : World {
         return v;
     }
     void gen(const std::string &prop, Rng &kr, Rng &pr, Knobs &k, Plan &p) override {
-        k.assign(1, prop == "C13" ? (kr.chance(0.5) ? 2 : kr.below(2)) : kr.below(3)); const AppDesc &d = app_desc((int)k[0]); auto &P = *d.params;
+        k.assign(2, 0); k[0] = prop == "C13" ? (kr.chance(0.5) ? 2 : kr.below(2)) : kr.below(3); k[1] = kr.chance(0.06); const AppDesc &d = app_desc((int)k[0]); auto &P = *d.params;
         size_t focus0 = pr.below(P.size()), focusn = 3 + pr.below(8);
         // half of the runs work on one leaf's neighbourhood instead: the parameters of its own directory and of every directory above it
         // (the toggles and selectors that enable, reset or select defaults for it live there)
@@ -104,12 +105,13 @@ struct SaveWorld : World {
         }
         if (!n) return; Loc d; d.obj = in.obj; in.d->ports->dispatch(buf, d, true);
     }
-    static std::string save(Inst &in) { std::set<std::string> written; return rtosc::save_to_file(*in.d->ports, in.obj, in.d->name, rtosc_version{1, 2, 3}, written, {}); }
-    static int load(Inst &in, const std::string &text) { stat_add(ST_LOADS); return rtosc::load_from_file(text.c_str(), *in.d->ports, in.obj, in.d->name, rtosc_version{1, 2, 3}); }
+    static std::string save(Inst &in) { std::set<std::string> written; return rtosc::save_to_file(*in.d->ports, in.obj, g_appname.c_str(), rtosc_version{1, 2, 3}, written, {}); }
+    static int load(Inst &in, const std::string &text) { stat_add(ST_LOADS); return rtosc::load_from_file(text.c_str(), *in.d->ports, in.obj, g_appname.c_str(), rtosc_version{1, 2, 3}); }
 
     Result exec(const std::string &prop, const Knobs &k, const Plan &plan, Choices &) override {
         Result res; stat_add(ST_RUNS); bool c13 = prop == "C13";
         const AppDesc &d = app_desc(k.empty() ? 0 : (int)k[0]); auto &P = *d.params; std::vector<std::string> names = elem_names(d);
+        g_appname = d.name; if (k.size() > 1 && k[1]) { g_appname += " mk 2"; stat_add(P_NAME_WITH_BLANK); }
         Inst *cur = new Inst(d); std::string disk; std::vector<Val> disk_state; std::vector<bool> disk_mask; bool disk_valid = false;
         uint64_t shape = mix64(7, k.empty() ? 0 : k[0]); bool nontrivial = false; int opi = 0; char b[700];
         auto fail = [&](const char *cls, const std::string &dd) { if (res.cls.empty()) { res.cls = cls; res.detail = dd; } };
@@ -156,7 +158,7 @@ struct SaveWorld : World {
                 for (size_t i = h; i < text.size(); i++) if (text[i] == '/' && (i == 0 || text[i - 1] == '\n')) for (size_t j = i; j < text.size() && text[j] != ' ' && text[j] != '\n'; j++) pos.push_back(j);
                 if (!pos.empty()) { size_t at = pos[(size_t)(op.a[1] % (int64_t)pos.size())]; file[at] = (char)(file[at] ^ (1 << (op.a[2] & 7))); if (!file[at]) file[at] = ' '; } relaxed = true; break; }
             case FL_HEADER: stat_add(F_HEADER); file = "% NOT OSC v9.9.9 savefile\n" + text.substr(text.find('\n') + 1); expect_reject = true; break;
-            case FL_APP: stat_add(F_APPNAME); { size_t a = text.find('\n') + 1, e = text.find('\n', a); std::string own = d.name; static const char *suffix[] = {"", "-pro", "2", "x"};
+            case FL_APP: stat_add(F_APPNAME); { size_t a = text.find('\n') + 1, e = text.find('\n', a); std::string own = g_appname; static const char *suffix[] = {"", "-pro", "2", "x"};
                 std::string other = (op.a[1] % 5 == 0) ? std::string("otherapp") : (op.a[1] % 5 == 4) ? own.substr(0, own.size() - 1) : own + suffix[op.a[1] % 5];   // also names that start with, or are a prefix of, the loader's own
                 file = text.substr(0, a) + "% " + other + " v1.2.3" + (e == std::string::npos ? "" : text.substr(e)); } expect_reject = true; break;
             case FL_GARBAGE: stat_add(F_GARBAGE); file = header_of(text); if (file.back() != '\n') file += "\n"; { size_t at = lines.empty() ? 0 : (size_t)(op.a[1] % (int64_t)(lines.size() + 1)); for (size_t i = 0; i < lines.size(); i++) { if (i == at) file += "/i_pos $$$ not a value\n"; file += lines[i] + "\n"; } if (at >= lines.size()) file += "/i_pos $$$ not a value\n"; } expect_reject = true; break;
